@@ -48,12 +48,42 @@ def run(chk: Check, proj: Project) -> None:
                only=lambda o: "outer-loop-values-over-nearer-bindings" not in o.construct)  # name shadowing between scopes OUTSIDE the tag: C03 only (F41)
     s9(chk, proj, w)
     s11(chk, proj, w)
+    s12(chk, proj, w)
     from . import generic
 
     chk.rule("S10", "every function on the render routes that hands its parameters on to the next one (Component.render -> _render -> _render_impl -> _render_with_id, render_to_response -> render, ComponentNode.render -> _render, resolve_fills -> _extract_fill_content ...) hands on EVERY parameter the two signatures share, positional ones in the position of the same name")
     generic.forwarding(chk, "S10", proj, w.cg, ["component", "components.dynamic", "slots", "component_registry", "node", "provide"], floor=6)
     chk.borrow("S8", "slot resolution, the isolation gate and the fill-context choice read the SAME mode (the component's registry settings) (shared with C03-S10)",
                lambda sub: C03.s10_mode_source(sub, proj, w), only=lambda o: "mode-from-registry" in o.construct)
+
+
+def s12(chk: Check, proj: Project, w) -> None:
+    chk.rule("S12", "a slot's own (default) content printed through the fill's `default` variable is resolved against the SLOT's component: in django mode SlotNode.render pushes the parent component's key onto the very Context object the SlotRef holds, so the SlotRef re-establishes the component key it saw at construction around its render")
+    sm = proj.mod("slots")
+    sr = sm.cls("SlotRef")
+    init = next((x for x in sr.body if isinstance(x, ast.FunctionDef) and x.name == "__init__"), None)
+    st_ = next((x for x in sr.body if isinstance(x, ast.FunctionDef) and x.name == "__str__"), None)
+    sm2, rf = proj.func("slots", "SlotNode.render")
+    chk.analysed(f"{sm.name}:SlotRef.__str__", fkey(sm2, rf))
+    # is the SlotRef's context the object the override layer is pushed on?  used_ctx may be that same context (django mode)
+    refs = [c for c in calls(rf) if last_attr(c.func) == "SlotRef" and len(c.args) >= 2]
+    ups = [it.context_expr for w_ in ast.walk(rf) if isinstance(w_, ast.With) for it in w_.items if isinstance(it.context_expr, ast.Call) and isinstance(it.context_expr.func, ast.Attribute) and it.context_expr.func.attr == "update" and it.context_expr.args and norm(it.context_expr.args[0]) == "extra_context"]
+    if init is None or st_ is None or not refs or not ups:
+        chk.undecided("S12", "slots:SlotRef:renders-under-own-component-key", sm.loc(sr), "SlotRef.__init__ / __str__ / its construction / the override layer not found")
+        return
+    ref_ctx = norm(refs[0].args[1])
+    pushed_on = norm(ups[0].func.value)
+    d = [v for _s, v in assignments(rf, pushed_on) if v is not None]
+    may_alias = pushed_on == ref_ctx or any(isinstance(v, ast.Call) and any(isinstance(a, ast.Name) and a.id == ref_ctx for a in v.args) for v in d)
+    # does __str__ push remembered keys (captured in __init__ from the context) around the render?
+    captured = {norm(t).split(".", 1)[1] for x in ast.walk(init) if isinstance(x, ast.Assign) for t in x.targets if isinstance(t, ast.Attribute) and norm(t.value) == "self"
+                and any(isinstance(y, ast.Name) and y.id == "_COMPONENT_CONTEXT_KEY" for y in ast.walk(x.value))}
+    rend = [c for c in ast.walk(st_) if isinstance(c, ast.Call) and last_attr(c.func) == "render"]
+    guarded = bool(rend) and any(isinstance(a, ast.With) and any(isinstance(it.context_expr, ast.Call) and last_attr(it.context_expr.func) in ("update", "push") and any(isinstance(y, ast.Attribute) and y.attr in captured for y in ast.walk(it.context_expr)) for it in a.items) for a in ancestors(rend[0]))
+    ok = (not may_alias) or guarded
+    chk.ob("S12", "slots:SlotRef:renders-under-own-component-key", sm.loc(st_), ok,
+           ("SlotRef.__str__ renders inside `with context.update(<keys captured at construction>)`" if guarded else "the override layer is never pushed on the SlotRef's context") if ok else
+           f"SlotNode.render pushes the PARENT component's key on `{pushed_on}`, which can be the very Context the SlotRef was given (`{ref_ctx}`, django mode), and SlotRef.__str__ renders the slot's content on it as it is then: `{{% slot \"a\" %}}[{{% slot \"inner\" %}}..{{% endslot %}}]{{% endslot %}}` filled with `X{{{{ default }}}}` resolves `inner` against the parent's fills (X[inner-default] although `inner` was filled)")
 
 
 def s11(chk: Check, proj: Project, w) -> None:
